@@ -97,6 +97,8 @@ _ST_DIST = [dict(cls='mc_point'), dict(cls='distribution_parameters', vec=True),
 _T_USER = 'user integrand and virtual point.weight() are contract stubs returning any value of T (NaN, +-inf, +-0 included)'
 
 JOBS = [
+    dict(name='ieee_facts', kind='lemma', source='lemmas/ieee_facts.c', real='double', thorough_reals=['float'],
+         props=['C07', 'C09', 'C08', 'C17', 'C01', 'C02', 'C06'], timeout=dict(quick=240, thorough=1200)),
     dict(name='accumulate', functions=['accumulate'], entry='h_accumulate', enforce='accumulate', solvers=['cvc5', 'cadical'],
          structs=_ST_ACC, late_preludes=['stubs.h'], globals=_GHOSTS, props=['C14', 'C02'], thorough_reals=['float']),
     dict(name='invoke_nodist', functions=['accumulator_nodist_invoke', 'accumulate'], entry='h_accumulator_nodist_invoke', af=['accumulator_nodist_invoke'],
@@ -116,6 +118,13 @@ JOBS = [
          structs=_ST_RES, preludes=['opaque.h'], late_preludes=['stubs.h'], globals=_GHOSTS,
          defines=['VP_DMAX=1048576', 'VP_CALLSMAX=1099511627776', 'VP_GEXPMAX=1152921504606846976'], props=['C02', 'C10', 'C17'], trusted=[_T_USER,
          'std::generate_canonical: assumed contract (value in [0,1], fixed raw draws per number)']),
+    dict(name='vegas_pdf_bin_left', functions=['vegas_pdf_bin_left'], entry='h_vegas_pdf_bin_left', enforce='vegas_pdf_bin_left',
+         structs=[dict(cls='vegas_pdf', cls_targs=['double'])], defines=['VP_BINSMAX=1048576', 'VP_DIMSMAX=1024'], props=['C07', 'C17', 'C01']),
+    dict(name='vegas_icdf', functions=['vegas_icdf', 'vegas_pdf_bin_left', 'vegas_pdf_bins', 'vegas_pdf_dimensions'], entry='h_vegas_icdf',
+         specs=['vegas_icdf', 'vegas_pdf_bin_left_abs'], replace=['vegas_pdf_bin_left'], split='always', split_workers=8,
+         enforce='vegas_icdf', af=['vegas_icdf'], structs=[dict(cls='vegas_pdf', cls_targs=['double'])], globals='T vp_g_weight;',
+         defines=['VP_BINSMAX=1048576', 'VP_DIMSMAX=1024'], props=['C07', 'C17', 'C01'], thorough_reals=['float'],
+         assumptions=['libm: nexttoward(1, 0) lies in (1/2, 1)', 'every canonical number handed to vegas_icdf lies in [0,1] (std::generate_canonical contract)']),
     dict(name='refine_weights', functions=['multi_channel_refine_weights'], entry='h_multi_channel_refine_weights',
          enforce='multi_channel_refine_weights', replace=['vp_pow'], real='double', defines=['VP_NMAX=4096'],
          props=[]),
@@ -127,6 +136,9 @@ B2JOBS = [
          fragments=[f for f in sorted(FRAGMENTS)], property_file='specs/C16.smt2', props=['C16', 'C04'],
          assumptions=['world size and rank are non-negative int values with rank < world (MPI_Comm_rank/MPI_Comm_size contract)']),
 ]
+
+B2JOBS.append(dict(name='int_lemmas', mode='int', functions=[], property_file='specs/int_lemmas.smt2',
+                   props=['C07', 'C17', 'C01', 'C10', 'C02']))
 
 NATIVEJOBS = []
 
